@@ -123,12 +123,18 @@ func (b *assignmentBuilder) matchStructFieldAndStruct(
 
 	for _, converter := range b.opts.Converters {
 		if converter.Dst().Match(lhs.MatcherExpr(), true) {
+			if err := b.refuseNotationsUnder(lhs); err != nil {
+				return nil, err
+			}
 			// If there are more than one converter exist for the lhs, the first one wins.
 			return b.createWithConverter(lhs, rhs, converter)
 		}
 	}
 	for _, mapper := range b.opts.NameMapper {
 		if mapper.Dst().Match(lhs.MatcherExpr(), true) {
+			if err := b.refuseNotationsUnder(lhs); err != nil {
+				return nil, err
+			}
 			// If there are more than one mapper exist for the lhs, the first one wins.
 			return b.createWithMapper(lhs, rhs, mapper)
 		}
@@ -136,18 +142,35 @@ func (b *assignmentBuilder) matchStructFieldAndStruct(
 
 	for _, mapper := range b.opts.TemplatedNameMapper {
 		if mapper.Dst().Match(lhs.MatcherExpr(), true) {
+			if err := b.refuseNotationsUnder(lhs); err != nil {
+				return nil, err
+			}
 			// If there are more than one mapper exist for the lhs, the first one wins.
 			return b.createWithTemplatedMapper(lhs, rhs, additionalArgs, mapper)
 		}
 	}
 	for _, setter := range b.opts.Literals {
 		if setter.Dst().Match(lhs.MatcherExpr(), true) {
+			if err := b.refuseNotationsUnder(lhs); err != nil {
+				return nil, err
+			}
 			// If there are more than one mapper exist for the lhs, the first one wins.
 			return gmodel.SimpleField{LHS: lhs.AssignExpr(), RHS: setter.Literal()}, nil
 		}
 	}
 
 	return b.structFieldAndStructGettersAndFields(lhs, rhs, additionalArgs)
+}
+
+// refuseNotationsUnder returns an error if there are notations on members of the given field:
+// a field that takes its value from a converter, a mapped source or a literal is assigned as a
+// whole, so those notations could not be honoured.
+func (b *assignmentBuilder) refuseNotationsUnder(lhs bmodel.Node) error {
+	if util.IsStructType(util.DerefPtr(lhs.ExprType())) && b.hasNotationUnder(lhs) {
+		return logger.Errorf("%v: notations on members of %v cannot be honoured: it is assigned as a whole",
+			b.fset.Position(b.methodPos), lhs.AssignExpr())
+	}
+	return nil
 }
 
 // matchStructFieldAndStruct matches a struct field on the left-hand side of an assignment
